@@ -58,16 +58,30 @@ let src_sx = function
 
 let rec range a b = if a >= b then [] else a :: range (a + 1) b
 
+let parse_cfg cfg = match sx_list cfg with
+  | [h; o; r; c; f; p; q; a; b; m] ->
+    ({ cf_header = sx_bool h; cf_has_onset = sx_bool o; cf_has_refs = sx_bool r; cf_cats = List.map sx_n (sx_list c);
+       cf_fixed = sx_bool f; cf_fix_none = sx_bool a; cf_fix_value = sx_bool b; cf_fix_mask = sx_bool m },
+     sx_int p, sx_int q)
+  | _ -> failwith "cfg"
+
+let report_sx = function
+  | Exn e -> L [A "exn"; exn_sx e]
+  | Ok l ->
+    L [A "ok"; L (List.map (fun i ->
+      L [src_sx i.i_src;
+         (match i.i_row with Some r -> nat_sx r | None -> A "-");
+         (match i.i_col with Some c -> A (string_of_int (int_of_n c)) | None -> A "-")]) l)]
+
+(* history input = (H cfg rows errtab ops), ops = ((S k row) | V ...); output = (hist (set 0|E) | report ...) *)
 let () = main_loop (fun x ->
   ignore (force_types O N0);
-  match sx_list x with
-  | [cfg; rows; errtab] ->
-    let header, has_onset, has_refs, cats, fixed, npre, npost, fn, fv, fm = match sx_list cfg with
-      | [h; o; r; c; f; p; q; a; b; m] ->
-        sx_bool h, sx_bool o, sx_bool r, List.map sx_n (sx_list c), sx_bool f, sx_int p, sx_int q, sx_bool a, sx_bool b, sx_bool m
-      | _ -> failwith "cfg" in
-    let cfg = { cf_header = header; cf_has_onset = has_onset; cf_has_refs = has_refs; cf_cats = cats; cf_fixed = fixed;
-                cf_fix_none = fn; cf_fix_value = fv; cf_fix_mask = fm } in
+  let is_hist, parts = match sx_list x with
+    | A "H" :: rest -> true, rest
+    | rest -> false, rest in
+  match parts with
+  | cfg :: rows :: errtab :: more ->
+    let cfg, npre, npost = parse_cfg cfg in
     let t = List.map sx_row (sx_list rows) in
     let tab = Hashtbl.create 64 in
     List.iter (fun e -> match sx_list e with [i; b] -> Hashtbl.replace tab (sx_int i) (sx_bool b) | _ -> failwith "errtab")
@@ -80,11 +94,19 @@ let () = main_loop (fun x ->
     let temporal (st : int) (a : ann) = (st + 1, [YTemp (st, a)]) in
     let pre = List.map (fun i -> YPre i) (range 0 npre) in
     let post = List.map (fun i -> YPost i) (range 0 npost) in
-    (match validate raw_is_error basic full banned nonempty temporal 0 pre post cfg t with
-     | Exn e -> L [A "exn"; exn_sx e]
-     | Ok l ->
-       L [A "ok"; L (List.map (fun i ->
-         L [src_sx i.i_src;
-            (match i.i_row with Some r -> nat_sx r | None -> A "-");
-            (match i.i_col with Some c -> A (string_of_int (int_of_n c)) | None -> A "-")]) l)])
+    if not is_hist then
+      report_sx (validate raw_is_error basic full banned nonempty temporal 0 pre post cfg t)
+    else begin
+      let ops = match more with
+        | [o] -> List.map (fun o -> match sx_list o with
+            | [A "S"; k; r] -> OSet (sx_nat k, sx_row r)
+            | [A "V"] -> OValidate
+            | _ -> failwith "op") (sx_list o)
+        | _ -> failwith "ops" in
+      let out = run_history raw_is_error basic full banned nonempty temporal 0 pre post cfg t ops in
+      L (A "hist" :: List.map (function
+        | HSet None -> L [A "set"; A "0"]
+        | HSet (Some e) -> L [A "set"; exn_sx e]
+        | HReport r -> report_sx r) out)
+    end
   | _ -> failwith "input")
